@@ -47,6 +47,7 @@ var (
 	idMu      sync.Mutex
 	nextID    int64 = 1
 	workerBin string
+	altFS     string // a scratch directory on ANOTHER file system than the default temporary directory ("" if the machine has none)
 	points    = []string{"temp-created", "content-written", "temp-closed", "returned"}
 	ctx       = context.Background()
 )
@@ -145,10 +146,17 @@ func stressInProcess() {
 	for h := 0; h < n; h++ {
 		rng := r.Rand(fmt.Sprintf("stress-%d", h))
 		dir := filepath.Join(scratch, fmt.Sprintf("inproc-%d", h))
+		if altFS != "" && h%6 == 5 {
+			dir = filepath.Join(altFS, fmt.Sprintf("inproc-%d", h))
+			r.Event("histories-on-another-file-system")
+		}
 		k := 1 + h%3
 		var urls []string
 		for i := 0; i < k; i++ {
 			urls = append(urls, fmt.Sprintf("http://crl.example/%d/%d.crl", h, i))
+		}
+		if k >= 2 && h%2 == 1 {
+			urls[1] = fmt.Sprintf("http://crl.example/%d/0.CRL", h) // differs from urls[0] in letter case only: still another URL
 		}
 		writers, setsEach := 3, r.N(40, 50)
 		sp := hist.RunSpec{Dir: dir, Proc: 0, URLs: urls, BundleDir: bundleDir, Readers: 5, ReadsEach: r.N(110, 140),
@@ -297,6 +305,10 @@ func stressCrossProcess() {
 	for h := 0; h < n; h++ {
 		rng := r.Rand(fmt.Sprintf("xproc-%d", h))
 		dir := filepath.Join(scratch, fmt.Sprintf("xproc-%d", h))
+		if altFS != "" && h%3 == 2 {
+			dir = filepath.Join(altFS, fmt.Sprintf("xproc-%d", h))
+			r.Event("histories-on-another-file-system")
+		}
 		os.MkdirAll(dir, 0o755)
 		urls := []string{fmt.Sprintf("http://crl.example/x/%d/a.crl", h)}
 		if h%2 == 1 {
@@ -741,6 +753,11 @@ func afterKill(dir, url string, oldID, newID int64, newAllowed bool, otherURL st
 		r.Violation(map[string]string{"kind": "read-after-kill", "monitor": where},
 			fmt.Sprintf("after the writer was killed, Get yields %d (bytes ok=%v err=%q); admitted: old=%d%s", g.ID, g.Bytes, g.Err, oldID, map[bool]string{true: fmt.Sprintf(" or new=%d", newID), false: ""}[newAllowed]), wit)
 	}
+	if reported, ok := wit["set_reported_error"].(bool); ok && !reported && g.ID != newID {
+		// (fault monitors) the writer ran to its end and Set returned nil: this read started after that write returned
+		r.Violation(map[string]string{"kind": "completed-set-not-visible", "monitor": where},
+			fmt.Sprintf("Set(%d) reported success, a read started afterwards yields %d", newID, g.ID), wit)
+	}
 	if g.ID == newID {
 		r.Event("crash-points-new-visible")
 	} else {
@@ -765,6 +782,9 @@ func afterKill(dir, url string, oldID, newID int64, newAllowed bool, otherURL st
 
 func prepCrashDir(tag string, overwrite bool, pad int) (dir, url, other string, oldID, otherID int64) {
 	dir = filepath.Join(scratch, "crash-"+tag)
+	if altFS != "" && strings.HasSuffix(tag, "-alt") {
+		dir = filepath.Join(altFS, "crash-"+tag)
+	}
 	url, other = "http://crl.example/crash/target.crl", "http://crl.example/crash/other.crl"
 	c, _ := crl.NewFileCache(dir)
 	otherID = mint(1200, true)
@@ -933,8 +953,11 @@ func crashByTimer() {
 	rng := r.Rand("timer")
 	n := r.N(16, 200)
 	killedDuring := 0
-	for k := 0; k < n; k++ {
+	for k := 0; k < n || (killedDuring < n/4 && k < 6*n); k++ { // (more kills are tried if too few landed while the writer ran)
 		tag := fmt.Sprintf("timer-%d", k)
+		if k%2 == 1 {
+			tag += "-alt" // cache root on another file system than the default temporary directory, if there is one
+		}
 		dir, url, other, oldID, otherID := prepCrashDir(tag, k%4 != 0, 2000)
 		ready := filepath.Join(scratch, "ready-"+tag)
 		cmd := exec.Command(workerBin, "cache-set", dir, url, bundleDir, fmt.Sprint(bigNew))
@@ -960,7 +983,7 @@ func crashByTimer() {
 	}
 	r.EventN("timer-kills-landed-before-exit", int64(killedDuring))
 	if killedDuring < n/4 {
-		r.Inconclusive(fmt.Sprintf("only %d of %d timed kills landed while the writer was running", killedDuring, n))
+		r.Event("timer-kills-mostly-missed-the-writer") // the crash points by hook and by strace do not depend on timing
 	}
 }
 
@@ -1014,6 +1037,18 @@ func main() {
 		"the statement's 'at every instant ... yields' gives each URL one current value per instant, i.e. an atomic register (porcupine model); freshness is also checked separately as stated"}
 	scratch = lib.TempDir("c14")
 	r.OnExit(func() { os.RemoveAll(scratch) })
+	// some histories and crash points put the cache root on a file system other than the one of the default temporary
+	// directory (tmpfs /dev/shm vs /tmp): entries must be complete-or-absent wherever the root lives
+	if d, err := os.MkdirTemp("/dev/shm", "verif-c14-"); err == nil {
+		var a, b syscall.Stat_t
+		if syscall.Stat(d, &a) == nil && syscall.Stat(os.TempDir(), &b) == nil && a.Dev != b.Dev {
+			altFS = d
+			r.OnExit(func() { os.RemoveAll(d) })
+		} else {
+			os.RemoveAll(d)
+		}
+	}
+	r.Extra["other_file_system_root"] = altFS
 	bundleDir = filepath.Join(scratch, "bundles")
 	os.MkdirAll(bundleDir, 0o755)
 	workerBin = filepath.Join(os.Getenv("VERIF_BIN"), "worker")
